@@ -244,6 +244,10 @@ class Checker:
                     if pe.tag in context:
                         if value != context[pe.tag]:
                             continue
+                        # A pattern bound earlier (e.g. by the packet name when matching the key name)
+                        # must still satisfy the constraints this rule puts on it
+                        if not self._check_cons(value, context, pe.cons_sets):
+                            continue
                         matches.append(-1)
                     else:
                         if not self._check_cons(value, context, pe.cons_sets):
